@@ -89,6 +89,8 @@ def generate(prop, seed, tier):
                     break
         desc["ops"].insert(len(desc["ops"]) - 1, dict(op="retime", offsets=offs))
     names = sorted(desc["world"]["stores"])
+    # (aware renderings: the fixed list plus arbitrary UTC offsets in whole minutes)
+    aware = AWARE + [["offset", rng.randrange(-12 * 60, 14 * 60 + 1)] for _ in range(3)]
     variants = [dict(tz="UTC", renders={n: "aware-utc" for n in names}, fresh_render="aware-utc")]
     for _ in range(3 if tier == "quick" else 5):
         tz = rng.choice([zone, zone, rng.choice(ZONES)])
@@ -103,12 +105,12 @@ def generate(prop, seed, tier):
             elif style == "file":
                 renders[n] = rng.choice(["file", "file", "naive-local"])
             elif style == "all-aware":
-                renders[n] = rng.choice(AWARE)
+                renders[n] = rng.choice(aware)
             elif style == "same-zone":
-                renders[n] = ["zone", zname] if rng.random() < 0.85 else rng.choice(AWARE)
+                renders[n] = ["zone", zname] if rng.random() < 0.85 else rng.choice(aware)
             else:
-                renders[n] = rng.choice(["naive-local", "file", rng.choice(AWARE)])
-        fr = rng.choice(["naive-local", rng.choice(AWARE)])
+                renders[n] = rng.choice(["naive-local", "file", rng.choice(aware)])
+        fr = rng.choice(["naive-local", rng.choice(aware)])
         if style == "same-zone" and rng.random() < 0.7:
             fr = ["zone", zname]
         variants.append(dict(tz=tz, renders=renders, fresh_render=fr))
